@@ -25,3 +25,7 @@ package core
 //@   ensures [strict-no-ip] strictmode && isNilIface(result.1) ==> net.ParseIP(result.0.Hostname()) == nil
 //@   ensures [strict-not-reserved] strictmode && isNilIface(result.1) ==> !isReserved(result.0)
 //@   ensures [lenient-accepts-same] !strictmode ==> did(call ParsePublicURLWithScheme #1) && arg(call ParsePublicURLWithScheme #1, 1) == true
+
+//@ func UserAgent
+//@   prop C20
+//@   modifies nothing
